@@ -15,6 +15,7 @@ from common import CheckError
 LEVEL = "other"
 SPECDIR = os.path.join(common.SPEC, "calculus")
 KNOWN_CLASSNLL = "s-classnll:single-output:negative-target:negative-loss"
+KNOWN_LINEAR_MU = "linear-objective:l2>0:declared-strong-convexity-ignores-unregularised-bias"
 
 
 def run(rep, tier):
@@ -31,20 +32,28 @@ def run(rep, tier):
         info = [x for x in rs if x["e"] == "Info"]
         rs = [x for x in rs if x["e"] not in ("Abort", "Inexact", "Info", "Done")]
         known = []
+        known_mu = []
         for x in rs:
+            # second recorded finding: the linear objective declares mu = l2 / #weights although the bias is not regularised
+            if x["e"] == "Generic" and x["fn"].startswith("linear-objective:") and x.get("l2") and x["convex"] and x["convexOK"] and not x["strongOK"]:
+                known_mu.append(dict(x))
+                x["strongOK"] = True
             # the recorded finding: one clause of one record is reported separately, the rest of the record is still validated
             if x["e"] == "Loss" and x["loss"] == "s-classnll" and x["t"] == [-1] and not x["nonneg"]:
                 known.append(dict(x))
                 x["nonneg"] = True
         acc, rejects, states = trace.validate_independent("PolyCalculus", "PolyCalculus.cfg", SPECDIR, rs, out + ".tlc", tag="c06_%d" % i)
-        return crashed, o, bad, acc, rejects, rs, states, known, info
+        return crashed, o, bad, acc, rejects, rs, states, known, info, known_mu
 
     with ThreadPoolExecutor(nproc) as ex:
         results = list(ex.map(drive, range(nproc)))
     total = states = 0
     count = {"Stencil": 0, "Convex": 0, "Loss": 0, "Generic": 0}
     fns, losses, declared = set(), set(), 0
-    for crashed, o, bad, acc, rejects, rs, st, known, info in results:
+    for crashed, o, bad, acc, rejects, rs, st, known, info, known_mu in results:
+        for kf in known_mu[:1]:
+            rep.violation("the linear objective with l2 > 0 violates its declared strong-convexity inequality (bias not regularised): %s" % kf,
+                          payload=kf, signature=KNOWN_LINEAR_MU)
         if crashed:
             rep.violation("calculus driver crashed", payload={"output": o[-3000:]})
         for b in bad[:3]:
